@@ -30,6 +30,27 @@ for sid in sorted(d for d in os.listdir(os.path.join(ROOT, "seeded")) if os.path
 n = len(rows) - 2; c = sum(1 for sid, r in res.items() if r.get("caught_by"))
 rows.append(""); rows.append(f"{n} seeded changes kept; {c} caught by the quick check of the property they break (tier in brackets: P = a proved obligation now fails, S = structural obligation, B = bounded run-time contract).")
 s = put(s, "SEEDED", "\n".join(rows))
+# round-3 measurements: numbers read from the files the tools wrote (work/ is untracked, so the section is only rewritten when those files exist)
+def _load(path):
+    try: return json.load(open(os.path.join(ROOT, path)))
+    except Exception: return None
+st, cx, xc, bl = _load("work/selftest.json"), _load("work/cex_selftest.json"), _load("work/xcheck_all.json"), _load("baseline/pyvc.json")
+if "<!-- R3NUM:BEGIN -->" in s and (st or cx or xc or bl):
+    out = []
+    if bl: out.append(f"* **Obligations** (`./check baseline`, thorough tier, both solvers): {len(bl['discharged'])} obligations from the real source discharged, {len(bl.get('failed_stems', []))} stem(s) not discharged (the recorded known finding: {', '.join(bl.get('failed_stems', [])) or '-'}); {len(bl['functions'])} function instantiations.")
+    if st:
+        ms = st["mutants"]; k = sum(1 for m in ms if m["status"] == "killed"); d = [m["mutant"] for m in ms if m["status"] == "demoted"]; sv = [m["mutant"] for m in ms if m["status"] == "SURVIVED"]
+        out.append(f"* **Mutant self-test** (`./check selftest`, part 1): {len([m for m in ms if m['status'] != 'skipped'])} semantic mutants of the functions under contract; {k} fail a named obligation, {len(d)} make the contract inapplicable (construct outside the subset -> decided by the bounded tier: {', '.join(d) or '-'}), {len(sv)} survive ({', '.join(sv) or 'none'}).")
+    if cx:
+        ms = {k: v for k, v in cx.items() if k != "unchanged"}; c = {}
+        for v in ms.values(): c[v["status"]] = c.get(v["status"], 0) + 1
+        un = cx.get("unchanged", {})
+        out.append(f"* **Counterexample search** (`tools/cex_selftest.py`, part 2): of {len(ms)} mutants, {c.get('confirmed', 0)} get a verifier counterexample CONFIRMED on the mutated compiled function (reality == prediction, obligation fails for every admissible specification interpretation), "
+                   f"{c.get('candidate-not-confirmed', 0)} only an unconfirmed candidate (not reported), {c.get('none', 0) + c.get('not-runnable', 0)} none within the bound (16-bit counter overflow at 2^15 rows, out-of-bounds accesses, dtype-only changes, larger windows). "
+                   f"On the unchanged tree: {un.get('statuses')}; confirmed only for the recorded known finding ({', '.join(x.split('::')[-1] for x in un.get('confirmed_for_a_recorded_known_finding', [])) or '-'}); confirmed elsewhere: {un.get('confirmed_on_unchanged_tree') or 'none'}.")
+    if xc:
+        out.append(f"* **Encoding cross-check** (`pyvc.cex --xcheck`, part 3): {sum(r.get('agree', 0) for r in xc)} paths of the bounded execution executed natively agree with the engine's prediction, {sum(len(r.get('disagree', [])) for r in xc)} disagree, over {sum(1 for r in xc if r.get('paths_executed'))} function instantiations ({sum(1 for r in xc if r.get('status') == 'not-runnable')} not runnable stand-alone: object methods, nested overload bodies).")
+    s = put(s, "R3NUM", "\n".join(out))
 # harmless edits (false-alarm measurement)
 bp = os.path.join(ROOT, "benign", "RESULTS.json")
 if os.path.exists(bp) and "<!-- BENIGN:BEGIN -->" in s:
